@@ -1049,6 +1049,20 @@ func (zl *zlexer) Next() (lex, bool) {
 
 							l.value = zRrtpe
 							l.torc = t
+						} else if strings.HasPrefix(tokenUpper, "TYPE") {
+							// A type without rdata may be spelled TYPEnnn as well,
+							// e.g. "name. 0 NONE TYPE65280" in a dynamic update.
+							t, ok := typeToInt(l.token)
+							if !ok {
+								l.token = "unknown RR type"
+								l.err = true
+								return *l, true
+							}
+
+							zl.rrtype = true
+
+							l.value = zRrtpe
+							l.torc = t
 						}
 					}
 
